@@ -1,5 +1,6 @@
 import Fuota.Model.Recon
 import Fuota.Spec.Gf2
+import Fuota.Lemmas.ReconStep
 /-!
 # C02 — the parity reconstructor never produces wrong data
 
@@ -11,14 +12,26 @@ XOR-combination `combo x (P i) n` of the originals.
 namespace Fuota.C02
 open Fuota.Recon Fuota.Gf2
 
+/-- the state after `new` -/
 def init (n bs : Nat) : St := { n := n, bs := bs }
 
 /-- the run the theorems talk about -/
 def run (V : Variant) (n bs vbits numRows : Nat) (x P : Nat → Nat) (is : List Nat) : St × List Res :=
   runBlocks V noFault P vbits numRows (fun i => combo x (P i) n) (init n bs) is
 
-/- TO PROVE (statement fixed):
+/-- the invariant of `Fuota.Recon.Inv` holds after every fault-free run from the initial state -/
+theorem run_inv (V : Variant) (n bs vbits numRows : Nat) (x P : Nat → Nat) (hP : Contract n P) (is : List Nat) :
+    Inv n bs vbits numRows x (run V n bs vbits numRows x P is).1 ∧
+    (∀ res ∈ (run V n bs vbits numRows x P is).2, res = .needMore ∨ res = .tooMany ∨ res = .done (n * bs)) ∧
+    (∀ b, (run V n bs vbits numRows x P is).2.getLast? = some (.done b) →
+      isComplete (run V n bs vbits numRows x P is).1 = true) :=
+  runBlocks_inv hP V is _ (inv_init n bs vbits numRows x)
 
+/-- **C02.** In every fault-free run — any block count, block size, originals `x`, contract-respecting matrix,
+capacity, store order and delivery sequence, each delivered block being the XOR-combination of the originals that
+its matrix row prescribes — (1) every block ever written to the data store is the original block of that index,
+(2) whenever the last delivery reports `Done` the reported length is `n * bs` and the data store holds exactly the
+originals, and (3) no delivery ends in a panic or an error. -/
 theorem recon_sound (V : Variant) (n bs vbits numRows : Nat) (x P : Nat → Nat) (hP : Contract n P)
     (is : List Nat) :
     let r := run V n bs vbits numRows x P is
@@ -27,7 +40,35 @@ theorem recon_sound (V : Variant) (n bs vbits numRows : Nat) (x P : Nat → Nat)
     -- (2) whenever the last delivery reports Done: the length is n*bs and the store holds exactly the originals
     (∀ b, r.2.getLast? = some (Res.done b) → b = n * bs ∧ ∀ m, m < n → get r.1.ds m = x m) ∧
     -- (3) no panic and no error outcome in a fault-free run
-    (∀ res ∈ r.2, res ≠ Res.panic ∧ ∀ e, res ≠ Res.err e)
--/
+    (∀ res ∈ r.2, res ≠ Res.panic ∧ ∀ e, res ≠ Res.err e) := by
+  intro r
+  obtain ⟨hI, hres, hlast⟩ := run_inv V n bs vbits numRows x P hP is
+  refine ⟨hI.core.hlogD, ?_, ?_⟩
+  · intro b hb
+    refine ⟨?_, hI.full (hlast b hb)⟩
+    have hmem : Res.done b ∈ r.2 := List.mem_of_getLast? hb
+    rcases hres _ hmem with h | h | h
+    · cases h
+    · cases h
+    · injection h
+  · intro res hr
+    rcases hres res hr with rfl | rfl | rfl
+    · exact ⟨by simp, by simp⟩
+    · exact ⟨by simp, by simp⟩
+    · exact ⟨by simp, by simp⟩
+
+/-- non-vacuity: the crate's unit-test run (4 blocks of one byte, identity rows then `(m-4) % 16`), delivered as
+`[0, 2, 9, 10, 14]`, ends with `Done 4`, and the data store then holds the originals `x m = 17 * (m + 1)` -/
+example :
+    let P : Nat → Nat := fun m => if m < 4 then 2 ^ m else (m - 4) % 16
+    let x : Nat → Nat := fun m => 17 * (m + 1)
+    let r := run ⟨true⟩ 4 1 8 8 x P [0, 2, 9, 10, 14]
+    Contract 4 P ∧ r.2 = [.needMore, .needMore, .needMore, .needMore, .done 4] ∧
+      (List.range 4).map (get r.1.ds) = [17, 34, 51, 68] := by
+  refine ⟨⟨fun m hm => by simp [hm], fun m => ?_⟩, by decide +kernel, by decide +kernel⟩
+  by_cases hm : m < 4
+  · simp only [hm, ↓reduceIte]
+    exact Nat.pow_lt_pow_right (by omega) hm
+  · simp only [hm, ↓reduceIte]; omega
 
 end Fuota.C02
